@@ -89,6 +89,8 @@ def parse_script(script_text, start_line_number=1):
 
             # Add the function definition statement
             function_label_def_depth = len(label_defs)
+            function_line = line
+            function_line_number = start_line_number + ix_line
             function_def = {
                 'function': {
                     'name': match_function_begin.group('name'),
@@ -406,6 +408,10 @@ def parse_script(script_text, start_line_number=1):
         def_key = next(iter(label_def))
         def_ = label_def[def_key]
         raise BareScriptParserError(f"Missing end{def_key} statement", def_['line'], 1, def_['lineNumber'])
+
+    # Dangling function definition?
+    if function_def is not None:
+        raise BareScriptParserError('Missing endfunction statement', function_line, 1, function_line_number)
 
     return script
 
